@@ -272,6 +272,11 @@ pub fn gen_spine(rng: &mut Rng, depth: u32, fixed_kind: Option<u64>) -> Value {
     v
 }
 
+thread_local! {
+    /// non-zero: the reference encoder writes byte strings of the current encoding in several chunks
+    pub static CHUNK_SEED: std::cell::Cell<u64> = const { std::cell::Cell::new(0) };
+}
+
 #[derive(Clone, Copy, PartialEq, Eq, Debug)]
 pub enum Ep {
     V1,
@@ -470,7 +475,19 @@ pub fn raw_encode(v: &Value, ep: Ep, out: &mut Vec<u8>) {
             }
             Ep::V2 => {
                 out.push(44);
-                if !b.0.is_empty() {
+                let seed = CHUNK_SEED.with(|c| c.get());
+                if seed != 0 && b.0.len() >= 2 {
+                    // the same byte string in several chunks (what a serializer fed from a ring buffer writes)
+                    let mut x = seed ^ (b.0.len() as u64).wrapping_mul(0x9e37_79b9_7f4a_7c15);
+                    let mut rest = &b.0[..];
+                    while !rest.is_empty() {
+                        x = x.wrapping_mul(6364136223846793005).wrapping_add(1442695040888963407);
+                        let n = 1 + ((x >> 33) as usize) % rest.len().min(9);
+                        put_varint(out, n as u64, 4);
+                        out.extend_from_slice(&rest[..n]);
+                        rest = &rest[n..];
+                    }
+                } else if !b.0.is_empty() {
                     put_varint(out, b.0.len() as u64, 4);
                     out.extend_from_slice(&b.0);
                 }
